@@ -445,10 +445,15 @@ Theorem derived_sees_unconverted_value_refuted :
   process (lower ex_decls) [("a"%string, bits_3_7)] = Some [GI32 3; GI32 7].
 Proof. split; vm_compute; reflexivity. Qed.
 
-(* NaN: documented as "not set"; ProcessOverrides takes it as the value *)
+(* NaN is a value: false for a bool override (the evaluator agrees) and not convertible to a
+   numeric type (the evaluator converts it: INT_MIN on amd64) *)
 Definition nan_bits : Z := 9221120237041090560.
+Theorem nan_for_bool_is_false :
+  subst_overrides [mkDecl "a" None (Some TBool) (Some (ELit (LBool true)))] [("a"%string, nan_bits)] = Ok [VBool false] /\
+  process (lower [mkDecl "a" None (Some TBool) (Some (ELit (LBool true)))]) [("a"%string, nan_bits)] = Some [GBool false].
+Proof. split; vm_compute; reflexivity. Qed.
 Theorem nan_taken_as_value_refuted :
-  subst_overrides [mkDecl "a" None (Some TI32) (Some (ELit (LInt 7 SNone)))] [("a"%string, nan_bits)] = Ok [VI32 7] /\
+  subst_overrides [mkDecl "a" None (Some TI32) (Some (ELit (LInt 7 SNone)))] [("a"%string, nan_bits)] = Err EConv /\
   process (lower [mkDecl "a" None (Some TI32) (Some (ELit (LInt 7 SNone)))]) [("a"%string, nan_bits)] = Some [GI32 2147483648].
 Proof. split; vm_compute; reflexivity. Qed.
 
